@@ -656,6 +656,53 @@ def check_sample_n(ctx):
             ctx.case(("sample_n", n, tuple(map(tuple, rows)), seed))
 
 
+def check_starts_sched(ctx):
+    """the `select_start_nodes` OVERRIDE of the scheduling environments (FJSPEnv, inherited by JSSPEnv) on real reset
+    batches with explicit small num_starts k ∈ {2, 3, min #feasible, min #feasible + 1}: starts feasible for their own
+    instance (row r ↔ instance r mod B), and pairwise distinct per instance when EVERY instance of the batch has >= k
+    feasible first actions (otherwise the batch-global replacement of `sample_n_random_actions` applies — known finding)."""
+    from rl4co.envs import FJSPEnv, JSSPEnv
+
+    confs = [("fjsp", FJSPEnv, dict(num_jobs=4, num_machines=3, min_ops_per_job=2, max_ops_per_job=3)),
+             ("jssp", JSSPEnv, dict(num_jobs=6, num_machines=3)), ("jssp", JSSPEnv, dict(num_jobs=3, num_machines=2))]
+    for name, cls, gp in confs:
+        env = cls(generator_params=gp)
+        for B in (1, 2, 3):
+            torch.manual_seed(ctx.rng.randrange(1 << 30))
+            td = env.reset(batch_size=[B])
+            mask = td["action_mask"]
+            w = mask.shape[-1]
+            feas = mask[:, 1:].sum(-1).tolist()
+            for k in sorted({2, 3, min(feas), min(feas) + 1}):
+                if k < 2:
+                    continue  # k = 1 crashes in sample_n_random_actions' own rearrange (never used: multistart needs k > 1)
+                for rep_i in range(ctx.budget(3, 10)):
+                    seed = ctx.rng.randrange(1 << 30)
+                    torch.manual_seed(seed)
+                    try:
+                        sel = env.select_start_nodes(td, k).tolist()
+                    except Exception as e:  # noqa: BLE001
+                        viol(ctx, f"starts-raised:{name}", f"{name}: select_start_nodes raised on a reset batch",
+                             {"env": name, "B": B, "k": k, "error": repr(e)[:200]})
+                        break
+                    mf = parse_fields(ctx.driver.ask(f"ops.samplen {w} {k} {B} | {ilist(mask.int().flatten().tolist())} | {ilist(sel)}"))
+                    replace = mf["replace"] == "1"
+                    ctx.count(f"starts.sched.{name}." + ("some-row-has-fewer" if replace else "all-rows-have-k"))
+                    ctx.case(("starts-sched", name, B, k, seed), nontrivial=True)
+                    if mf["fjspok"] != "1":
+                        ctx.disagreement(f"{name} select_start_nodes outside the modelled relation (delegation to sample_n_random_actions)",
+                                         {"env": name, "B": B, "k": k, "feasible_counts": feas, "sel": sel})
+                    if len(sel) != k * B:
+                        viol(ctx, f"starts-rows:{name}", "select_start_nodes did not return k*B actions", {"env": name, "B": B, "k": k})
+                        continue
+                    extra = {"env": name, "torch_seed": seed, "feasible_counts": feas, "via": f"{cls.__name__}.select_start_nodes"}
+                    if replace:  # the known batch-global replacement decision, reached through the env method
+                        _starts_oracle(ctx, "sample_n_random_actions", mask, sel, B, k, 1, extra=extra, branch=":replace")
+                    else:
+                        _starts_oracle(ctx, name, mask, sel, B, k, 1, extra=extra, branch=":all-rows-have-k")
+    ctx.sample({"what": "FJSP/JSSP select_start_nodes override", "k": "2,3,min feasible,min feasible+1", "B": [1, 2, 3]}, cap=3)
+
+
 # --------------------------------------------------------------------------------------------------
 # C12 (3): best-of-k selection
 
@@ -1231,6 +1278,7 @@ def run_c12(ctx):
     check_starts_svrp(ctx)
     check_start_hooks(ctx)
     check_sample_n(ctx)
+    check_starts_sched(ctx)
     check_select_best(ctx)
     check_gather_default(ctx)
     check_gather_by_index(ctx)
@@ -1939,6 +1987,7 @@ C12_THEOREMS = [
     T("Rl4co.Ops.gatherIdx_step_lost", "proved", "… a single step with squeeze=True drops the step dimension"),
     T("Rl4co.Ops.gatherIdx_default_one_step", "proved", "the default call drops a one-step dimension; squeeze=False keeps it for every S (root of fix f2d5960)"),
     T("Rl4co.Ops.hookRule_eq_envRule", "proved", "multistart and beam-search pre_decoder_hook use the env's own select_start_nodes (overrides not bypassed)"),
+    T("Rl4co.Ops.fjsp_starts_rows", "proved", "FJSPEnv/JSSPEnv.select_start_nodes (extracted: delegates to sample_n_random_actions): rows j·B+b feasible for instance b, distinct when every instance has >= n feasible first actions"),
     T("Rl4co.Ops.sampleN_rows", "proved", "sample_n_random_actions: rows j·B+b hold feasible actions of instance b, distinct unless the replacement branch"),
     T("Rl4co.Spec.Ops.expandOk_iff", "proved", "Spec sanity: expandOk ⇔ ∀ r, tag r = r mod B"),
     T("Rl4co.Spec.Ops.bestOk_iff", "proved", "Spec sanity: bestOk ⇔ returned value bounds all rollouts ∧ is attained by the chosen one"),
@@ -2016,7 +2065,7 @@ C17_THEOREMS = [
     T("Rl4co.Ops.readMany_current", "proved", "the same for a whole pass over any index list (any order, repetitions) from any store"),
 ]
 
-NOTE_P = ("translator tie: `Params.opsLoopsReversed`, `opsNumStartsDepotEnvs`, `opsNoDepotStartEnvs`, `opsOpClampMin`, `opsOpArgsortStable`, `opsOpCountPerInstance`, `opsNoDepotInterleave`, `opsDepotInterleave`, `opsDepotArangeStart`, `opsDepotModAdd`, `opsDepotPlus`, `opsOpReplicaMajor`, `opsSampleNReplicaMajor`, `amFlattenReplicaMajor`, `amStaticUnbatchify`, `amCacheUsesBatchify`, `decMultistartEnvSelect`, `decBeamEnvSelect`, `opsGatherSqueezeDefault/DimDefault/SqueezeSize`, `l2dHiddenUsesBatchify`, `narIndexUsesBatchify`, `matnetTdUsesBatchify`, `easTdUsesBatchify`, "
+NOTE_P = ("translator tie: `Params.opsLoopsReversed`, `opsNumStartsDepotEnvs`, `opsNoDepotStartEnvs`, `opsOpClampMin`, `opsOpArgsortStable`, `opsOpCountPerInstance`, `opsNoDepotInterleave`, `opsDepotInterleave`, `opsDepotArangeStart`, `opsDepotModAdd`, `opsDepotPlus`, `opsOpReplicaMajor`, `opsSampleNReplicaMajor`, `amFlattenReplicaMajor`, `amStaticUnbatchify`, `amCacheUsesBatchify`, `decMultistartEnvSelect`, `decBeamEnvSelect`, `opsGatherSqueezeDefault/DimDefault/SqueezeSize`, `fjspStartsDelegate`, `l2dHiddenUsesBatchify`, `narIndexUsesBatchify`, `matnetTdUsesBatchify`, `easTdUsesBatchify`, "
           "`opsSampleNReplaceCmp` are regenerated from utils/ops.py (harness/probes/ops.py) and unfolded by the C12 proofs")
 
 register(Unit("C12", "ops", run_c12, drivers=["drv_ops"],
